@@ -96,3 +96,507 @@ Example C18_example :
   let b := [of_string "t"; of_string "d1"; of_string "s2"; of_string "x.y"; of_string "b"] in
   relative_path a b = [dotdot; dotdot; of_string "s2"; of_string "x.y"; of_string "b"] /\ norm_join a (relative_path a b) = b.
 Proof. vm_compute. split; reflexivity. Qed.
+
+(* ================================================================================================== *)
+(* added from Properties/C18_add.v (2026-10-01)                                              *)
+(* ================================================================================================== *)
+(* C18 additions: the chain from SDict.include + dump to the read, end to end on the model
+   (proofs: Proofs/IncludeChainProofs.v).
+   1. path STRINGS of the reader (norm_path, dir_of, path_join) against the component lists of C18_rel_join;
+   2. the text the writer produces for a dict with one registered include, and what the lexer's include stage registers
+      for the directive line of that text;
+   3. reading the dumped file merges the included file, wherever the two files are. *)
+From Coq Require Import NArith ZArith List Bool.
+From DictIO Require Import Chars Str Value Scalar KeyPath SDict Layout Lexer TokParser Reader Paths TreeSpec MiscSpec.
+From DictIO Require Import E2EHoles RereadStr PathsProofs IncludeChainProofs.
+Import ListNotations.
+
+(* ---- 1. strings <-> components -------------------------------------------------------------------------- *)
+(* a normalised absolute path string is the string of its components, and these are ordinary components (not empty,
+   not dot, not dot-dot, free of slashes); conversely such a component list is the component list of its string *)
+Theorem C18_path_string_components : forall p, norm_path p = p -> p = path_str (comps_of p) /\ comps_ok (comps_of p) = true.
+Proof. exact path_string_components. Qed.
+Print Assumptions C18_path_string_components.
+
+Theorem C18_components_path_string : forall c, comps_ok c = true -> norm_path (path_str c) = path_str c /\ comps_of (path_str c) = c.
+Proof. exact components_path_string. Qed.
+Print Assumptions C18_components_path_string.
+
+Example C18_path_string_components_nonvacuous :
+  let p := of_string "/r/run 1/v1.2/a.dict" in
+  norm_path p = p /\ comps_of p = [of_string "r"; of_string "run 1"; of_string "v1.2"; of_string "a.dict"] /\
+  p = path_str (comps_of p) /\ comps_ok (comps_of p) = true /\
+  norm_path (path_str (comps_of p)) = path_str (comps_of p) /\ comps_of (path_str (comps_of p)) = comps_of p.
+Proof.
+  intros p. assert (H : norm_path p = p) by (vm_compute; reflexivity).
+  destruct (C18_path_string_components p H) as [H1 H2]. destruct (C18_components_path_string _ H2) as [H3 H4].
+  refine (conj H (conj _ (conj H1 (conj H2 (conj H3 H4))))). vm_compute. reflexivity.
+Qed.
+
+(* the reader's resolution of a relative name (textual join with the folder, then os.path.normpath) is norm_join on
+   the components: dot-dot components of the name climb *)
+Theorem C18_join_normalises : forall d rel, comps_ok d = true -> rel_ok rel = true ->
+  norm_path (path_join (path_str d) (join_slash rel)) = path_str (norm_join d rel).
+Proof. exact norm_path_joined. Qed.
+Print Assumptions C18_join_normalises.
+
+Example C18_join_normalises_nonvacuous :
+  let d := [of_string "r"; of_string "run 1"; of_string "v1.2"] in
+  let rel := [dotdot; dotdot; of_string "other dir"; of_string "b.dict"] in
+  comps_ok d = true /\ rel_ok rel = true /\
+  path_join (path_str d) (join_slash rel) = of_string "/r/run 1/v1.2/../../other dir/b.dict" /\
+  norm_path (path_join (path_str d) (join_slash rel)) = path_str (norm_join d rel) /\
+  path_str (norm_join d rel) = of_string "/r/other dir/b.dict".
+Proof.
+  intros d rel. assert (H1 : comps_ok d = true) by (vm_compute; reflexivity).
+  assert (H2 : rel_ok rel = true) by (vm_compute; reflexivity).
+  refine (conj H1 (conj H2 (conj _ (conj (C18_join_normalises d rel H1 H2) _)))); vm_compute; reflexivity.
+Qed.
+
+(* C18_rel_join lifted to the reader's string functions: the include name computed by SDict.include for the dict file
+   pb in the dict file pa (relative path from pa's folder, POSIX separators), joined to pa's folder as the reader does
+   and normalised, is pb.  For any two normalised absolute paths: same folder, below, above, beside. *)
+Theorem C18_rel_join_strings : forall pa pb, norm_path pa = pa -> norm_path pb = pb ->
+  norm_path (path_join (dir_of pa) (include_name pa pb)) = pb.
+Proof. exact rel_join_str. Qed.
+Print Assumptions C18_rel_join_strings.
+
+(* the five placements of the non-vacuity checks; folder names with a blank and with a dot *)
+Module C18_chain_ex.
+  Definition a_top := of_string "/r/run 1/a.dict".
+  Definition a_deep := of_string "/r/run 1/v1.2/a.dict".
+  Definition b_same := of_string "/r/run 1/b.dict".                (* same folder as a_top; parent folder of a_deep *)
+  Definition b_child := of_string "/r/run 1/v1.2/b.dict".          (* below a_top *)
+  Definition b_sibling := of_string "/r/other dir/b.dict".         (* beside a_top *)
+  Definition b_cousin := of_string "/r/other dir/v1.2/b.dict".     (* beside a_deep, two levels up and down *)
+  (* the data of the including dict (a) and of the included file (b): x is in both *)
+  Definition da : list (key * tree) :=
+    [(KS (of_string "x"), Leaf (SInt 1)); (KS (of_string "d"), Dict [(KS (of_string "y"), Leaf (SStr (of_string "two words")))])].
+  Definition db : list (key * tree) := [(KS (of_string "x"), Leaf (SInt 9)); (KS (of_string "z"), Leaf (SInt 3))].
+  Definition tb : str := to_string_plain db.
+End C18_chain_ex.
+Import C18_chain_ex.
+
+Example C18_rel_join_strings_nonvacuous :
+  (norm_path a_top = a_top /\ norm_path a_deep = a_deep /\ norm_path b_same = b_same /\ norm_path b_child = b_child /\
+   norm_path b_sibling = b_sibling /\ norm_path b_cousin = b_cousin) /\
+  (include_name a_top b_same = of_string "b.dict" /\ norm_path (path_join (dir_of a_top) (include_name a_top b_same)) = b_same) /\
+  (include_name a_top b_child = of_string "v1.2/b.dict" /\ norm_path (path_join (dir_of a_top) (include_name a_top b_child)) = b_child) /\
+  (include_name a_deep b_same = of_string "../b.dict" /\ norm_path (path_join (dir_of a_deep) (include_name a_deep b_same)) = b_same) /\
+  (include_name a_top b_sibling = of_string "../other dir/b.dict" /\
+   norm_path (path_join (dir_of a_top) (include_name a_top b_sibling)) = b_sibling) /\
+  (include_name a_deep b_cousin = of_string "../../other dir/v1.2/b.dict" /\
+   path_join (dir_of a_deep) (include_name a_deep b_cousin) = of_string "/r/run 1/v1.2/../../other dir/v1.2/b.dict" /\
+   norm_path (path_join (dir_of a_deep) (include_name a_deep b_cousin)) = b_cousin).
+Proof.
+  assert (A1 : norm_path a_top = a_top) by (vm_compute; reflexivity).
+  assert (A2 : norm_path a_deep = a_deep) by (vm_compute; reflexivity).
+  assert (B1 : norm_path b_same = b_same) by (vm_compute; reflexivity).
+  assert (B2 : norm_path b_child = b_child) by (vm_compute; reflexivity).
+  assert (B3 : norm_path b_sibling = b_sibling) by (vm_compute; reflexivity).
+  assert (B4 : norm_path b_cousin = b_cousin) by (vm_compute; reflexivity).
+  refine (conj (conj A1 (conj A2 (conj B1 (conj B2 (conj B3 B4)))))
+         (conj (conj _ (C18_rel_join_strings _ _ A1 B1)) (conj (conj _ (C18_rel_join_strings _ _ A1 B2))
+         (conj (conj _ (C18_rel_join_strings _ _ A2 B1)) (conj (conj _ (C18_rel_join_strings _ _ A1 B3))
+         (conj _ (conj _ (C18_rel_join_strings _ _ A2 B4)))))))); vm_compute; reflexivity.
+Qed.
+
+(* ---- 2. the dumped text and the lexer's include stage ---------------------------------------------------- *)
+(* sd_with_include da i name path: what SDict.include leaves in a dict built in memory (the placeholder entry
+   INCLUDE<i> appended to the data da, the entry (directive, name, path) in the include table; no comments).
+   NativeFormatter.to_string writes the default header, the directive line `#include <formatted name>` and then the
+   text of the data.  Side conditions: name_ok = no line break in the name (the only condition on the name in this chain:
+   dollars, blanks, dots, hashes, quotes of both kinds are fine, C18_include_dump_read_nonvacuous_quotes_dollar; a line
+   break cuts the directive, C18_line_break_finding); i below a million (six-digit placeholders);
+   plain_top da: no top-level key of da spells a block comment or include placeholder (the writer moves such entries to
+   the front); the data text of da does not spell the placeholder INCLUDE<i> itself. *)
+Theorem C18_dumped_text : forall da i name path,
+  name_ok name = true -> (i < 1000000)%N -> plain_top da = true -> contains (iph i) (native_body da) = false ->
+  to_string_sd (sd_with_include da i name path) =
+  native_header ++ (of_string "#include " ++ format_string name) ++ c_lf :: to_string_plain da.
+Proof. exact sd_include_text. Qed.
+Print Assumptions C18_dumped_text.
+
+Example C18_dumped_text_nonvacuous :
+  let name := include_name a_top b_sibling in
+  name_ok name = true /\ (7 < 1000000)%N /\ plain_top da = true /\ contains (iph 7) (native_body da) = false /\
+  to_string_sd (sd_with_include da 7 name b_sibling) =
+    native_header ++ (of_string "#include " ++ format_string name) ++ c_lf :: to_string_plain da /\
+  to_string_sd (sd_with_include da 7 name b_sibling) = of_string
+"/*---------------------------------*- C++ -*----------------------------------*\
+filetype dictionary; coding utf-8; version 0.1; local --; purpose --;
+\*----------------------------------------------------------------------------*/
+#include '../other dir/b.dict'
+x                             1;
+d
+{
+    y                         'two words';
+}
+".
+Proof.
+  intros name. assert (H1 : name_ok name = true) by (vm_compute; reflexivity).
+  assert (H2 : (7 < 1000000)%N) by reflexivity. assert (H3 : plain_top da = true) by (vm_compute; reflexivity).
+  assert (H4 : contains (iph 7) (native_body da) = false) by (vm_compute; reflexivity).
+  refine (conj H1 (conj H2 (conj H3 (conj H4 (conj (C18_dumped_text da 7 name b_sibling H1 H2 H3 H4) _))))).
+  vm_compute. reflexivity.
+Qed.
+
+(* the include stage of the lexer (any comments flag, any counter) on a text made of complete lines P, the directive
+   line written for the relative path rel, and a rest T: it registers exactly one include, with the directive text, the
+   name  join_slash rel  and the path  path_join dir name  anchored at the folder of the file being read.
+   Side conditions: no other hash sign in the text (a hash may start another directive) and no double slash (the line
+   comment stage runs first and would cut the line there). *)
+Theorem C18_lexer_registers_directive : forall com dir c P T rel,
+  name_ok (join_slash rel) = true ->
+  ends_lf P -> has_char c_cr P = false -> has_char c_hash P = false -> has_char c_hash T = false ->
+  nopair c_slash c_slash (P ++ include_directive_text rel ++ c_lf :: T) = true ->
+  lxd_inc (lex com dir c (P ++ include_directive_text rel ++ c_lf :: T)) =
+    [(Z.to_N (counter_next c), (include_directive_text rel, join_slash rel, path_join dir (join_slash rel)))].
+Proof. exact lex_include_directive. Qed.
+Print Assumptions C18_lexer_registers_directive.
+
+Example C18_lexer_registers_directive_nonvacuous :
+  let rel := [dotdot; of_string "other dir"; of_string "b.dict"] in
+  let P := native_header in let T := to_string_plain da in let dir := of_string "/r/run 1" in
+  name_ok (join_slash rel) = true /\ ends_lf P /\ has_char c_cr P = false /\ has_char c_hash P = false /\
+  has_char c_hash T = false /\ nopair c_slash c_slash (P ++ include_directive_text rel ++ c_lf :: T) = true /\
+  lxd_inc (lex true dir 41 (P ++ include_directive_text rel ++ c_lf :: T)) =
+    [(42%N, (of_string "#include '../other dir/b.dict'", of_string "../other dir/b.dict", of_string "/r/run 1/../other dir/b.dict"))].
+Proof.
+  intros rel P T dir. assert (H1 : name_ok (join_slash rel) = true) by (vm_compute; reflexivity).
+  assert (H2 : ends_lf P) by (right; exists (removelast P); vm_compute; reflexivity).
+  assert (H3 : has_char c_cr P = false) by (vm_compute; reflexivity).
+  assert (H4 : has_char c_hash P = false) by (vm_compute; reflexivity).
+  assert (H5 : has_char c_hash T = false) by (vm_compute; reflexivity).
+  assert (H6 : nopair c_slash c_slash (P ++ include_directive_text rel ++ c_lf :: T) = true) by (vm_compute; reflexivity).
+  refine (conj H1 (conj H2 (conj H3 (conj H4 (conj H5 (conj H6 _)))))).
+  rewrite (C18_lexer_registers_directive true dir 41%Z P T rel H1 H2 H3 H4 H5 H6). vm_compute. reflexivity.
+Qed.
+
+(* ---- 3. reading the dumped file merges the included file ---------------------------------------------------- *)
+(* Given the include entry in the table of the parsed file a (name = the relative path computed by SDict.include, path =
+   that name joined to a's folder: what the include stage registers), for ANY two normalised absolute paths pa, pb:
+   the entry resolves to pb, so the read of a parses the file at pb and every ordinary top-level key of it is a key of
+   the result, and every ordinary leaf of a itself is kept (the including file wins).  C06 composed with
+   C18_rel_join_strings. *)
+Theorem C18_include_read : forall fs pa pb com c s c' ua pra i d ub,
+  norm_path pa = pa -> norm_path pb = pb ->
+  read_plain fs pa true com c = Ok (s, c') ->
+  fs_lookup pa fs = Some ua -> parse_unit com pa c ua = Ok pra ->
+  In (i, (d, include_name pa pb, path_join (dir_of pa) (include_name pa pb))) (sd_inc (pr_sd pra)) ->
+  fs_lookup pb fs = Some ub ->
+  (exists c1 prb, parse_unit com (path_join (dir_of pa) (include_name pa pb)) c1 ub = Ok prb /\
+     forall k, ordinary_key k = true -> alookup k (sd_data (pr_sd prb)) <> None -> alookup k (sd_data s) <> None) /\
+  (forall k v, ordinary_key k = true -> ordinary_leaf v = true ->
+     alookup k (sd_data (pr_sd pra)) = Some (Leaf v) -> alookup k (sd_data s) = Some (Leaf v)).
+Proof. exact include_read_merges. Qed.
+Print Assumptions C18_include_read.
+
+(* non-vacuity: a hand-written including file (no header, short layout) beside the included one *)
+Example C18_include_read_nonvacuous :
+  let ta := of_string "#include '../other dir/b.dict'
+x 1;
+" in
+  let fs := [(a_top, FNative ta); (b_sibling, FNative tb)] in
+  exists s c' pra i d,
+    norm_path a_top = a_top /\ norm_path b_sibling = b_sibling /\
+    read_plain fs a_top true true 0 = Ok (s, c') /\ fs_lookup a_top fs = Some (FNative ta) /\
+    parse_unit true a_top 0 (FNative ta) = Ok pra /\
+    In (i, (d, include_name a_top b_sibling, path_join (dir_of a_top) (include_name a_top b_sibling))) (sd_inc (pr_sd pra)) /\
+    fs_lookup b_sibling fs = Some (FNative tb) /\
+    ((exists c1 prb, parse_unit true (path_join (dir_of a_top) (include_name a_top b_sibling)) c1 (FNative tb) = Ok prb /\
+        forall k, ordinary_key k = true -> alookup k (sd_data (pr_sd prb)) <> None -> alookup k (sd_data s) <> None) /\
+     (forall k v, ordinary_key k = true -> ordinary_leaf v = true ->
+        alookup k (sd_data (pr_sd pra)) = Some (Leaf v) -> alookup k (sd_data s) = Some (Leaf v))) /\
+    alookup (KS (of_string "z")) (sd_data s) = Some (Leaf (SInt 3)) /\ alookup (KS (of_string "x")) (sd_data s) = Some (Leaf (SInt 1)).
+Proof.
+  intros ta fs.
+  destruct (read_plain fs a_top true true 0) as [[s c']|e] eqn:E; [|vm_compute in E; discriminate E].
+  destruct (parse_unit true a_top 0 (FNative ta)) as [pra|e] eqn:Epa; [|vm_compute in Epa; discriminate Epa].
+  exists s, c', pra, 1%N, (of_string "#include '../other dir/b.dict'").
+  assert (H1 : norm_path a_top = a_top) by (vm_compute; reflexivity).
+  assert (H2 : norm_path b_sibling = b_sibling) by (vm_compute; reflexivity).
+  assert (H4 : fs_lookup a_top fs = Some (FNative ta)) by (vm_compute; reflexivity).
+  assert (H7 : fs_lookup b_sibling fs = Some (FNative tb)) by (vm_compute; reflexivity).
+  assert (H6 : In (1%N, (of_string "#include '../other dir/b.dict'", include_name a_top b_sibling,
+                         path_join (dir_of a_top) (include_name a_top b_sibling))) (sd_inc (pr_sd pra))).
+  { pose proof Epa as Epa'. vm_compute in Epa'. injection Epa' as Epa'. rewrite <- Epa'. vm_compute. left. reflexivity. }
+  refine (conj H1 (conj H2 (conj eq_refl (conj H4 (conj eq_refl (conj H6 (conj H7
+            (conj (C18_include_read fs a_top b_sibling true 0%Z s c' _ pra _ _ _ H1 H2 E H4 Epa H6 H7) _)))))))).
+  vm_compute in E. injection E as Es _. rewrite <- Es. vm_compute. split; reflexivity.
+Qed.
+
+(* FULL STATEMENT (C18_include_dump_read): the theorem below without the hypothesis  sd_inc (pr_sd pra) <> [].
+   It is FALSE of the model and of the library as it stands (C18_include_dropped_finding below): the clean-up that the
+   parser runs on the parsed dict (_clean: duplicate placeholder entries are dropped) deletes the only include entry
+   when two keys of one nested dict of a's data spell an INCLUDE placeholder with the id the directive is given on
+   re-reading.  The hypothesis says that the include table of the parsed file is not empty (boolean on examples); with it
+   the lexer stage theorem fixes the entry.  Proved here: everything else of the chain.  Missing for discharging the
+   hypothesis on the class "no key of da at any level spells an INCLUDE placeholder": the token parser on the token
+   stream  header-comment token, include token, tokens of da  (RereadParse.dict_spec needs its prefix to end in a
+   semicolon, a closing brace or a comment token; an include token also stops the look-back but is not among the tokens allowed there).
+
+   pa, pb: any two normalised absolute paths (same folder, child, parent, sibling, cousin).  The dict a is built in
+   memory with ordinary data da, b is included (SDict.include: id i, name include_name pa pb, path pb), a is dumped
+   (NativeFormatter) to pa; fs holds that text at pa and any unit ub at pb.  Reading pa with include merging:
+   every ordinary top-level key of b's parse is a key of the result, every ordinary leaf of a's parse is kept.
+   Side conditions: name_ok (no line break in folder / file names; blanks, dots, dollars, hashes, quotes of both kinds
+   are fine: the reader strips one leading and one trailing quote character whatever is between), i < 10^6, plain_top da, da's text does not spell INCLUDE<i>, contains no hash sign
+   (another directive) and no double slash (cut as a line comment before the include stage), the read and the parse of
+   a succeed. *)
+Theorem C18_include_dump_read_partial : forall fs pa pb da i c s c' pra ub,
+  norm_path pa = pa -> norm_path pb = pb -> name_ok (include_name pa pb) = true ->
+  (i < 1000000)%N -> plain_top da = true -> contains (iph i) (native_body da) = false ->
+  has_char c_hash (to_string_plain da) = false -> nopair c_slash c_slash (to_string_plain da) = true ->
+  let ta := to_string_sd (sd_with_include da i (include_name pa pb) pb) in
+  fs_lookup pa fs = Some (FNative ta) -> fs_lookup pb fs = Some ub ->
+  parse_unit true pa c (FNative ta) = Ok pra -> sd_inc (pr_sd pra) <> [] ->
+  read_plain fs pa true true c = Ok (s, c') ->
+  (exists c1 prb, parse_unit true (path_join (dir_of pa) (include_name pa pb)) c1 ub = Ok prb /\
+     forall k, ordinary_key k = true -> alookup k (sd_data (pr_sd prb)) <> None -> alookup k (sd_data s) <> None) /\
+  (forall k v, ordinary_key k = true -> ordinary_leaf v = true ->
+     alookup k (sd_data (pr_sd pra)) = Some (Leaf v) -> alookup k (sd_data s) = Some (Leaf v)).
+Proof. exact include_dump_read_sd_partial. Qed.
+Print Assumptions C18_include_dump_read_partial.
+
+(* one placement: every hypothesis of the theorem, its conclusion, and what the read returns concretely: z (only in b)
+   arrives, x (in both) keeps a's value, the nested entry of a is kept *)
+Definition C18_chain_case (pa pb : str) : Prop :=
+  let ta := to_string_sd (sd_with_include da 7 (include_name pa pb) pb) in
+  let fs := [(pa, FNative ta); (pb, FNative tb)] in
+  exists s c' pra,
+    norm_path pa = pa /\ norm_path pb = pb /\ name_ok (include_name pa pb) = true /\
+    (7 < 1000000)%N /\ plain_top da = true /\ contains (iph 7) (native_body da) = false /\
+    has_char c_hash (to_string_plain da) = false /\ nopair c_slash c_slash (to_string_plain da) = true /\
+    fs_lookup pa fs = Some (FNative ta) /\ fs_lookup pb fs = Some (FNative tb) /\
+    parse_unit true pa 0 (FNative ta) = Ok pra /\ sd_inc (pr_sd pra) <> [] /\
+    read_plain fs pa true true 0 = Ok (s, c') /\
+    ((exists c1 prb, parse_unit true (path_join (dir_of pa) (include_name pa pb)) c1 (FNative tb) = Ok prb /\
+        forall k, ordinary_key k = true -> alookup k (sd_data (pr_sd prb)) <> None -> alookup k (sd_data s) <> None) /\
+     (forall k v, ordinary_key k = true -> ordinary_leaf v = true ->
+        alookup k (sd_data (pr_sd pra)) = Some (Leaf v) -> alookup k (sd_data s) = Some (Leaf v))) /\
+    alookup (KS (of_string "z")) (sd_data s) = Some (Leaf (SInt 3)) /\
+    alookup (KS (of_string "x")) (sd_data s) = Some (Leaf (SInt 1)) /\
+    alookup (KS (of_string "d")) (sd_data s) = Some (Dict [(KS (of_string "y"), Leaf (SStr (of_string "two words")))]).
+
+Ltac C18_chain_tac :=
+  unfold C18_chain_case; cbv zeta;
+  let E := fresh "E" in let Epa := fresh "Epa" in let Epa' := fresh "Epa'" in let Es := fresh "Es" in
+  let s := fresh "s" in let c' := fresh "c'" in let pra := fresh "pra" in
+  let H1 := fresh "H" in let H2 := fresh "H" in let H3 := fresh "H" in let H4 := fresh "H" in let H5 := fresh "H" in
+  let H6 := fresh "H" in let H7 := fresh "H" in let H8 := fresh "H" in let H9 := fresh "H" in let H10 := fresh "H" in
+  let H12 := fresh "H" in let Hn := fresh "Hn" in
+  match goal with
+  | |- exists _ _ _, _ /\ _ /\ _ /\ _ /\ _ /\ _ /\ _ /\ _ /\ _ /\ _ /\ parse_unit true ?pa 0%Z ?ua = _ /\ _ /\ read_plain ?fs _ _ _ _ = _ /\ _ =>
+      destruct (read_plain fs pa true true 0%Z) as [[s c']|?] eqn:E; [|vm_compute in E; discriminate E];
+      destruct (parse_unit true pa 0%Z ua) as [pra|?] eqn:Epa; [|vm_compute in Epa; discriminate Epa];
+      exists s, c', pra
+  end;
+  match goal with
+  | |- ?h1 /\ ?h2 /\ ?h3 /\ ?h4 /\ ?h5 /\ ?h6 /\ ?h7 /\ ?h8 /\ ?h9 /\ ?h10 /\ _ /\ ?h12 /\ _ /\ _ =>
+      assert (H1 : h1) by (vm_compute; reflexivity); assert (H2 : h2) by (vm_compute; reflexivity);
+      assert (H3 : h3) by (vm_compute; reflexivity); assert (H4 : h4) by reflexivity;
+      assert (H5 : h5) by (vm_compute; reflexivity); assert (H6 : h6) by (vm_compute; reflexivity);
+      assert (H7 : h7) by (vm_compute; reflexivity); assert (H8 : h8) by (vm_compute; reflexivity);
+      assert (H9 : h9) by (vm_compute; reflexivity); assert (H10 : h10) by (vm_compute; reflexivity);
+      assert (H12 : h12) by (intro Hn; pose proof Epa as Epa'; vm_compute in Epa';
+                             injection Epa' as Epa'; rewrite <- Epa' in Hn; vm_compute in Hn; discriminate Hn)
+  end;
+  refine (conj H1 (conj H2 (conj H3 (conj H4 (conj H5 (conj H6 (conj H7 (conj H8 (conj H9 (conj H10 (conj eq_refl (conj H12
+            (conj eq_refl (conj (C18_include_dump_read_partial _ _ _ _ _ _ _ _ _ _ H1 H2 H3 H4 H5 H6 H7 H8 H9 H10 Epa H12 E) _))))))))))))));
+  vm_compute in E; injection E as Es _; rewrite <- Es; vm_compute; repeat split; reflexivity.
+
+(* non-vacuity: the five placements *)
+Example C18_include_dump_read_nonvacuous_same_folder : C18_chain_case a_top b_same.
+Proof. C18_chain_tac. Qed.
+Example C18_include_dump_read_nonvacuous_child : C18_chain_case a_top b_child.
+Proof. C18_chain_tac. Qed.
+Example C18_include_dump_read_nonvacuous_parent : C18_chain_case a_deep b_same.
+Proof. C18_chain_tac. Qed.
+Example C18_include_dump_read_nonvacuous_sibling : C18_chain_case a_top b_sibling.
+Proof. C18_chain_tac. Qed.
+Example C18_include_dump_read_nonvacuous_cousin : C18_chain_case a_deep b_cousin.
+Proof. C18_chain_tac. Qed.
+
+(* folder names with a dollar, an apostrophe and double quotes, a hash: the name is written in single quotes although it
+   contains one; the reader strips the outer pair only *)
+Example C18_include_dump_read_nonvacuous_quotes_dollar :
+  C18_chain_case (of_string "/r/$v/a#1/a.dict") (of_string "/r/it's ""q""/b.dict") /\
+  include_name (of_string "/r/$v/a#1/a.dict") (of_string "/r/it's ""q""/b.dict") = of_string "../../it's ""q""/b.dict" /\
+  format_string (of_string "../../it's ""q""/b.dict") = of_string "'../../it's ""q""/b.dict'".
+Proof. split; [C18_chain_tac|split; vm_compute; reflexivity]. Qed.
+
+(* the dumped text and the read result of the cousin placement, computed *)
+Example C18_include_dump_read_computed :
+  let ta := to_string_sd (sd_with_include da 7 (include_name a_deep b_cousin) b_cousin) in
+  ta = of_string
+"/*---------------------------------*- C++ -*----------------------------------*\
+filetype dictionary; coding utf-8; version 0.1; local --; purpose --;
+\*----------------------------------------------------------------------------*/
+#include '../../other dir/v1.2/b.dict'
+x                             1;
+d
+{
+    y                         'two words';
+}
+" /\
+  match read_plain [(a_deep, FNative ta); (b_cousin, FNative tb)] a_deep true true 0 with
+  | Ok (s, c) => map fst (sd_data s) = [KS (of_string "BLOCKCOMMENT000000"); KS (of_string "INCLUDE000001"); KS (of_string "x");
+                                        KS (of_string "d"); KS (of_string "z")] /\
+                 sd_inc s = [(1%N, (of_string "#include '../../other dir/v1.2/b.dict'", of_string "../../other dir/v1.2/b.dict",
+                                    of_string "/r/run 1/v1.2/../../other dir/v1.2/b.dict"))] /\ c = 2%Z
+  | Raise _ => False
+  end.
+Proof. vm_compute. repeat split; reflexivity. Qed.
+
+(* FINDING (same on the library: DictReader.read returns includes == {} and no key of b): every hypothesis of
+   C18_include_dump_read_partial except the non-empty include table holds, and the included file is NOT merged.
+   a's data has a nested dict with two keys that spell INCLUDE000001, the id the directive gets when the dumped file is
+   read with the counter at 0; _clean takes the second for a doublette of the first and deletes the table entry. *)
+Example C18_include_dropped_finding :
+  let da' := [(KS (of_string "x"), Leaf (SInt 1));
+              (KS (of_string "d"), Dict [(KS (of_string "aINCLUDE000001"), Leaf (SInt 1)); (KS (of_string "bINCLUDE000001"), Leaf (SInt 2))])] in
+  let pa := a_top in let pb := b_same in
+  let ta := to_string_sd (sd_with_include da' 7 (include_name pa pb) pb) in
+  let fs := [(pa, FNative ta); (pb, FNative tb)] in
+  norm_path pa = pa /\ norm_path pb = pb /\ name_ok (include_name pa pb) = true /\
+  plain_top da' = true /\ contains (iph 7) (native_body da') = false /\
+  has_char c_hash (to_string_plain da') = false /\ nopair c_slash c_slash (to_string_plain da') = true /\
+  match parse_unit true pa 0 (FNative ta), read_plain fs pa true true 0 with
+  | Ok pra, Ok (s, _) => sd_inc (pr_sd pra) = [] /\ alookup (KS (of_string "z")) (sd_data s) = None /\
+                         alookup (KS (of_string "z")) db = Some (Leaf (SInt 3))
+  | _, _ => False
+  end.
+Proof. vm_compute. repeat split; reflexivity. Qed.
+
+(* FINDING (same on the library): a line break in a folder name.  name_ok fails, the directive is cut at the line break,
+   the include stage registers the name up to there, nothing is merged and a's own entry x is lost as well. *)
+Example C18_line_break_finding :
+  let pa := a_top in let pb := of_string "/r/run 1/li
+ne/b.dict" in
+  let ta := to_string_sd (sd_with_include da 7 (include_name pa pb) pb) in
+  let fs := [(pa, FNative ta); (pb, FNative tb)] in
+  norm_path pa = pa /\ norm_path pb = pb /\ name_ok (include_name pa pb) = false /\
+  match parse_unit true pa 0 (FNative ta), read_plain fs pa true true 0 with
+  | Ok pra, Ok (s, _) => map (fun e => snd (fst (snd e))) (sd_inc (pr_sd pra)) = [of_string "li"] /\
+                         alookup (KS (of_string "z")) (sd_data s) = None /\ alookup (KS (of_string "x")) (sd_data s) = None
+  | _, _ => False
+  end.
+Proof. vm_compute. repeat split; reflexivity. Qed.
+
+(* ---- added from Properties/C18_add2.v: composition with the document-level include theorem of C12 ---- *)
+(* C18 additions, part 2: the chain SDict.include + dump + read end to end WITHOUT a hypothesis on the parsed include
+   table (proof: Proofs/IncludeChainFull.v = Proofs/IncludeChainProofs.v composed with the document-level include
+   theorem of C12 / C03, Proofs/RereadIncProofs.v).  To be appended behind C18_add.v once Proofs/RereadInc*.v are in. *)
+From Coq Require Import NArith ZArith List Bool.
+From DictIO Require Import Chars Str Value Scalar KeyPath SDict Layout Lexer TokParser Reader Paths TreeSpec NativeSpec MiscSpec E2ESpec.
+From DictIO Require RereadTree RereadProofs RereadIncWrite RereadIncProofs.
+From DictIO Require Import IncludeChainProofs IncludeChainFull.
+Import ListNotations.
+
+(* pa, pb: ANY two normalised absolute paths (same folder, below, above, beside).  The dict a is built in memory with
+   data da, b is included (SDict.include: placeholder entry INCLUDE<i>, table entry (directive, name, pb) with
+   name = the relative path from pa's folder to pb), a is dumped with NativeFormatter to pa; fs holds the dumped text at
+   pa and any unit ub at pb.  Then: the dumped text parses; reading pa with include merging parses the unit at pb
+   (through the path  pa's folder / name, which normalises to pb) and every ordinary top-level key of it is a key of the
+   result; every ordinary leaf of the parsed a is kept (the including file wins); and the data of the parsed a, comment
+   and include entries aside, are da with every leaf as written and re-read.
+   Side conditions: rereadable_inc (the class of C12_includes_survive_partial: da in the writer's re-readable class -
+   simple keys without the reserved words, hence none spelling a placeholder, which excludes C18_include_dropped_finding;
+   the name without line break, double slash or placeholder word, which the class needs for its second write/read cycle;
+   id below a million), plain_top da (da has no include entry of its own), the counter at least -1, at most a million
+   comments / quoted literals.  No hypothesis on the parse result. *)
+Theorem C18_include_dump_read : forall fs pa pb da i c s c' ub,
+  norm_path pa = pa -> norm_path pb = pb ->
+  let sa := sd_with_include da i (include_name pa pb) pb in
+  plain_top da = true -> RereadIncWrite.rereadable_inc sa = true -> (-1 <= c)%Z ->
+  (Z.of_nat (List.length (RereadProofs.lc_list (RereadIncProofs.written_doc_inc sa))) <= 1000000)%Z ->
+  (Z.of_nat (List.length (RereadProofs.bc_list (RereadIncProofs.written_doc_inc sa))) <= 1000000)%Z ->
+  (Z.of_nat (List.length (RereadProofs.lit_list (RereadIncProofs.written_doc_inc sa))) <= 1000000)%Z ->
+  fs_lookup pa fs = Some (FNative (to_string_sd sa)) -> fs_lookup pb fs = Some ub ->
+  read_plain fs pa true true c = Ok (s, c') ->
+  exists pra,
+    parse_unit true pa c (FNative (to_string_sd sa)) = Ok pra /\
+    (exists c1 prb, parse_unit true (path_join (dir_of pa) (include_name pa pb)) c1 ub = Ok prb /\
+       forall k, ordinary_key k = true -> alookup k (sd_data (pr_sd prb)) <> None -> alookup k (sd_data s) <> None) /\
+    (forall k v, ordinary_key k = true -> ordinary_leaf v = true ->
+       alookup k (sd_data (pr_sd pra)) = Some (Leaf v) -> alookup k (sd_data s) = Some (Leaf v)) /\
+    RereadTree.cstrip (Dict (sd_data (RereadIncWrite.strip_inc (pr_sd pra)))) =
+      map_leaves written_value (RereadTree.cstrip (Dict da)).
+Proof. exact include_dump_read_full. Qed.
+Print Assumptions C18_include_dump_read.
+
+(* the five placements again (self-contained copy of the example data of part 1) *)
+Module C18_full_ex.
+  Definition a_top := of_string "/r/run 1/a.dict".
+  Definition a_deep := of_string "/r/run 1/v1.2/a.dict".
+  Definition b_same := of_string "/r/run 1/b.dict".
+  Definition b_child := of_string "/r/run 1/v1.2/b.dict".
+  Definition b_sibling := of_string "/r/other dir/b.dict".
+  Definition b_cousin := of_string "/r/other dir/v1.2/b.dict".
+  Definition da : list (key * tree) :=
+    [(KS (of_string "x"), Leaf (SInt 1)); (KS (of_string "d"), Dict [(KS (of_string "y"), Leaf (SStr (of_string "two words")))])].
+  Definition db : list (key * tree) := [(KS (of_string "x"), Leaf (SInt 9)); (KS (of_string "z"), Leaf (SInt 3))].
+  Definition tb : str := to_string_plain db.
+End C18_full_ex.
+
+(* one placement: every hypothesis, the conclusion, and the concrete result (z of b arrives, x keeps a's value) *)
+Definition C18_full_case (pa pb : str) : Prop :=
+  let sa := sd_with_include C18_full_ex.da 7 (include_name pa pb) pb in
+  let fs := [(pa, FNative (to_string_sd sa)); (pb, FNative C18_full_ex.tb)] in
+  exists s c',
+    norm_path pa = pa /\ norm_path pb = pb /\ plain_top C18_full_ex.da = true /\ RereadIncWrite.rereadable_inc sa = true /\
+    (-1 <= 0)%Z /\
+    (Z.of_nat (List.length (RereadProofs.lc_list (RereadIncProofs.written_doc_inc sa))) <= 1000000)%Z /\
+    (Z.of_nat (List.length (RereadProofs.bc_list (RereadIncProofs.written_doc_inc sa))) <= 1000000)%Z /\
+    (Z.of_nat (List.length (RereadProofs.lit_list (RereadIncProofs.written_doc_inc sa))) <= 1000000)%Z /\
+    fs_lookup pa fs = Some (FNative (to_string_sd sa)) /\ fs_lookup pb fs = Some (FNative C18_full_ex.tb) /\
+    read_plain fs pa true true 0 = Ok (s, c') /\
+    (exists pra,
+      parse_unit true pa 0 (FNative (to_string_sd sa)) = Ok pra /\
+      (exists c1 prb, parse_unit true (path_join (dir_of pa) (include_name pa pb)) c1 (FNative C18_full_ex.tb) = Ok prb /\
+         forall k, ordinary_key k = true -> alookup k (sd_data (pr_sd prb)) <> None -> alookup k (sd_data s) <> None) /\
+      (forall k v, ordinary_key k = true -> ordinary_leaf v = true ->
+         alookup k (sd_data (pr_sd pra)) = Some (Leaf v) -> alookup k (sd_data s) = Some (Leaf v)) /\
+      RereadTree.cstrip (Dict (sd_data (RereadIncWrite.strip_inc (pr_sd pra)))) =
+        map_leaves written_value (RereadTree.cstrip (Dict C18_full_ex.da))) /\
+    alookup (KS (of_string "z")) (sd_data s) = Some (Leaf (SInt 3)) /\
+    alookup (KS (of_string "x")) (sd_data s) = Some (Leaf (SInt 1)).
+
+Ltac C18_full_tac :=
+  unfold C18_full_case; cbv zeta;
+  let E := fresh "E" in let Es := fresh "Es" in let s := fresh "s" in let c' := fresh "c'" in
+  let H1 := fresh "H" in let H2 := fresh "H" in let H3 := fresh "H" in let H4 := fresh "H" in let H5 := fresh "H" in
+  let H6 := fresh "H" in let H7 := fresh "H" in let H8 := fresh "H" in let H9 := fresh "H" in let H10 := fresh "H" in
+  match goal with
+  | |- exists _ _, _ /\ _ /\ _ /\ _ /\ _ /\ _ /\ _ /\ _ /\ _ /\ _ /\ read_plain ?fs ?pa _ _ _ = _ /\ _ =>
+      destruct (read_plain fs pa true true 0%Z) as [[s c']|?] eqn:E; [|vm_compute in E; discriminate E];
+      exists s, c'
+  end;
+  match goal with
+  | |- ?h1 /\ ?h2 /\ ?h3 /\ ?h4 /\ ?h5 /\ ?h6 /\ ?h7 /\ ?h8 /\ ?h9 /\ ?h10 /\ _ /\ _ =>
+      assert (H1 : h1) by (vm_compute; reflexivity); assert (H2 : h2) by (vm_compute; reflexivity);
+      assert (H3 : h3) by (vm_compute; reflexivity); assert (H4 : h4) by (vm_compute; reflexivity);
+      assert (H5 : h5) by (vm_compute; discriminate); assert (H6 : h6) by (vm_compute; discriminate);
+      assert (H7 : h7) by (vm_compute; discriminate); assert (H8 : h8) by (vm_compute; discriminate);
+      assert (H9 : h9) by (vm_compute; reflexivity); assert (H10 : h10) by (vm_compute; reflexivity)
+  end;
+  refine (conj H1 (conj H2 (conj H3 (conj H4 (conj H5 (conj H6 (conj H7 (conj H8 (conj H9 (conj H10 (conj eq_refl
+            (conj (C18_include_dump_read _ _ _ _ _ _ _ _ _ H1 H2 H3 H4 H5 H6 H7 H8 H9 H10 E) _))))))))))));
+  vm_compute in E; injection E as Es _; rewrite <- Es; vm_compute; split; reflexivity.
+
+(* non-vacuity: the five placements of C18_add.v *)
+Example C18_include_dump_read_full_nonvacuous_same_folder : C18_full_case C18_full_ex.a_top C18_full_ex.b_same.
+Proof. C18_full_tac. Qed.
+Example C18_include_dump_read_full_nonvacuous_child : C18_full_case C18_full_ex.a_top C18_full_ex.b_child.
+Proof. C18_full_tac. Qed.
+Example C18_include_dump_read_full_nonvacuous_parent : C18_full_case C18_full_ex.a_deep C18_full_ex.b_same.
+Proof. C18_full_tac. Qed.
+Example C18_include_dump_read_full_nonvacuous_sibling : C18_full_case C18_full_ex.a_top C18_full_ex.b_sibling.
+Proof. C18_full_tac. Qed.
+Example C18_include_dump_read_full_nonvacuous_cousin : C18_full_case C18_full_ex.a_deep C18_full_ex.b_cousin.
+Proof. C18_full_tac. Qed.
+(* folder names with a dollar, a hash, an apostrophe and double quotes *)
+Example C18_include_dump_read_full_nonvacuous_quotes_dollar :
+  C18_full_case (of_string "/r/$v/a#1/a.dict") (of_string "/r/it's ""q""/b.dict").
+Proof. C18_full_tac. Qed.
